@@ -110,6 +110,8 @@ package semantic
 
 //@ func (r *resolver) ResolveType(t *parser.Type) (err error)
 //@   requires wfResolver(r) && wfTypes() && t != nil
+//@   requires wfThs() && tdRefsOK() && tdRootsNotChildren() && ownTd(r, t)
+//@   ensures tdRefsOK()
 //@   ensures err == nil && isBase(t.Name) ==> t.Category == baseCat(t.Name)
 //@   ensures err == nil && !isBase(t.Name) && !isContainer(t.Name) && lastIndex(t.Name, ".") == -1 ==> inDom(r.ast.Name2Category, t.Name) && isTypeCat(r.ast.Name2Category[t.Name]) && t.Category == r.ast.Name2Category[t.Name] && (t.Category == parser.Category_Typedef ==> t.IsTypedef != nil) && (t.Category != parser.Category_Typedef ==> t.IsTypedef == old(t.IsTypedef)) && t.Reference == old(t.Reference)
 //@   ensures err == nil && !isBase(t.Name) && !isContainer(t.Name) && lastIndex(t.Name, ".") >= 0 ==> t.Reference != nil
@@ -117,7 +119,7 @@ package semantic
 //@   ensures err == nil && old(t.Reference) == nil && !isBase(t.Name) && !isContainer(t.Name) && lastIndex(t.Name, ".") >= 0 ==> forall k int :: 0 <= k && k < t.Reference.Index ==> !(IDLPrefix(r.ast.Includes[k].Path) == t.Name[:lastIndex(t.Name, ".")] && inDom(r.ast.Includes[k].Reference.Name2Category, t.Name[lastIndex(t.Name, ".")+1:]) && isTypeCat(r.ast.Includes[k].Reference.Name2Category[t.Name[lastIndex(t.Name, ".")+1:]]))
 //@   ensures wfTypes()
 //@   modifies parser.Type.Category, parser.Type.IsTypedef, parser.Type.Reference, parser.Include.Used, r.typedefs
-//@   loop 1 invariant err == nil && t.Reference == old(t.Reference) && wfTypes() && wfResolver(r)
+//@   loop 1 invariant err == nil && t.Reference == old(t.Reference) && wfTypes() && wfResolver(r) && tdRefsOK()
 //@   loop 1 invariant forall k int :: 0 <= k && k < $i ==> !(IDLPrefix(r.ast.Includes[k].Path) == tmp[0] && inDom(r.ast.Includes[k].Reference.Name2Category, tmp[1]) && isTypeCat(r.ast.Includes[k].Reference.Name2Category[tmp[1]]))
 
 //@ func (r *resolver) ResolveBaseService(v *parser.Service) error
@@ -150,13 +152,20 @@ package semantic
 // ---- enum lookup through typedefs (C05) ----
 
 // Shape and consistency of every parsed-and-registered file (established by the parser and RegisterNames/ResolveType).
-//@ pure func wfTh1(x *parser.Thrift) bool { return (forall i int :: 0 <= i && i < len(x.Enums) ==> x.Enums[i] != nil) && (forall i int :: 0 <= i && i < len(x.Typedefs) ==> x.Typedefs[i] != nil && x.Typedefs[i].Type != nil && (x.Typedefs[i].Type.Reference != nil ==> 0 <= x.Typedefs[i].Type.Reference.Index && x.Typedefs[i].Type.Reference.Index < len(x.Includes))) && (forall i int :: 0 <= i && i < len(x.Includes) ==> x.Includes[i] != nil && x.Includes[i].Reference != nil) && len(x.Includes) <= 2147483647 && (forall n string :: inDom(x.Name2Category, n) && x.Name2Category[n] == parser.Category_Enum ==> exists k int :: 0 <= k && k < len(x.Enums) && x.Enums[k].Name == n) && (forall n string :: inDom(x.Name2Category, n) && x.Name2Category[n] == parser.Category_Typedef ==> exists k int :: 0 <= k && k < len(x.Typedefs) && x.Typedefs[k].Alias == n) }
+//@ pure func wfTh1(x *parser.Thrift) bool { return (forall i int :: 0 <= i && i < len(x.Enums) ==> x.Enums[i] != nil) && (forall i int :: 0 <= i && i < len(x.Typedefs) ==> x.Typedefs[i] != nil && x.Typedefs[i].Type != nil) && (forall i int :: 0 <= i && i < len(x.Includes) ==> x.Includes[i] != nil && x.Includes[i].Reference != nil) && len(x.Includes) <= 2147483647 && (forall n string :: inDom(x.Name2Category, n) && x.Name2Category[n] == parser.Category_Enum ==> exists k int :: 0 <= k && k < len(x.Enums) && x.Enums[k].Name == n) && (forall n string :: inDom(x.Name2Category, n) && x.Name2Category[n] == parser.Category_Typedef ==> exists k int :: 0 <= k && k < len(x.Typedefs) && x.Typedefs[k].Alias == n) }
 //@ pure func wfThs() bool { return forall x *parser.Thrift :: x != nil ==> wfTh1(x) }
+// A typedef whose type was resolved into an include points at an include of its own file. ResolveType keeps this
+// because (parser output) a typedef's Type node is never a child of another Type node, and a resolver is only
+// handed Type nodes of its own file.
+//@ pure func tdRefs1(x *parser.Thrift) bool { return forall i int :: 0 <= i && i < len(x.Typedefs) ==> (x.Typedefs[i].Type.Reference != nil ==> 0 <= x.Typedefs[i].Type.Reference.Index && x.Typedefs[i].Type.Reference.Index < len(x.Includes)) }
+//@ pure func tdRefsOK() bool { return forall x *parser.Thrift :: x != nil && allocated(x) ==> tdRefs1(x) }
+//@ pure func tdRootsNotChildren() bool { return forall T *parser.Type; x *parser.Thrift; k int :: T != nil && x != nil && 0 <= k && k < len(x.Typedefs) ==> (T.KeyType == nil || x.Typedefs[k].Type != T.KeyType) && (T.ValueType == nil || x.Typedefs[k].Type != T.ValueType) }
+//@ pure func ownTd(r *resolver, t *parser.Type) bool { return forall x *parser.Thrift; k int :: x != nil && x != r.ast && 0 <= k && k < len(x.Typedefs) ==> x.Typedefs[k].Type != t }
 
 //@ pure func inEnums(a *parser.Thrift, e *parser.Enum) bool { return exists k int :: 0 <= k && k < len(a.Enums) && a.Enums[k] == e }
 
 //@ func getEnum(ast *parser.Thrift, name string) (enum *parser.Enum, includeIndex int32)
-//@   requires ast != nil && wfThs()
+//@   requires ast != nil && wfThs() && tdRefsOK()
 //@   ensures enum == nil ==> includeIndex == -1
 //@   ensures includeIndex == -1 || (0 <= includeIndex && includeIndex < len(ast.Includes))
 //@   ensures !inDom(ast.Name2Category, name) ==> enum == nil
@@ -181,7 +190,7 @@ package semantic
 //@ pure func bound1(a *parser.Thrift, x *parser.ConstValue) bool { return x.Type == parser.ConstType_ConstIdentifier && ident(x) != "true" && ident(x) != "false" ==> x.Extra != nil && denotes(a, x.Extra) }
 
 //@ func (r *resolver) ResolveConstValue(t *parser.ConstValue) (err error)
-//@   requires wfResolver(r) && wfThs() && wfCVs() && wfEnumsG() && t != nil
+//@   requires wfResolver(r) && wfThs() && tdRefsOK() && wfCVs() && wfEnumsG() && t != nil
 //@   ensures err == nil && t.Type == parser.ConstType_ConstIdentifier && ident(t) != "true" && ident(t) != "false" ==> t.Extra != nil && denotes(r.ast, t.Extra)
 //@   ensures forall x *parser.ConstValue :: x != nil && old(allocated(x) && x.Extra != nil && denotes(r.ast, x.Extra)) ==> x.Extra != nil && denotes(r.ast, x.Extra)
 //@   ensures err == nil && t.Type == parser.ConstType_ConstList ==> forall i int :: 0 <= i && i < len(t.TypedValue.List) ==> bound1(r.ast, t.TypedValue.List[i])
@@ -196,3 +205,23 @@ package semantic
 //@   loop 1.2 invariant err == nil && refsOK(r.ast, ref)
 //@   loop 1.3 invariant err == nil && refsOK(r.ast, ref)
 //@   loop 1.3.1 invariant err == nil && refsOK(r.ast, ref)
+
+// Defaults of struct fields, and of function arguments and exceptions, are constant values like any other.
+//@ pure func wfArgs(fs []*parser.Field) bool { return forall i int :: 0 <= i && i < len(fs) ==> fs[i] != nil && fs[i].Type != nil }
+//@ pure func defaultsBound(a *parser.Thrift, fs []*parser.Field, n int) bool { return forall i int :: 0 <= i && i < n && fs[i].Default != nil ==> bound1(a, fs[i].Default) }
+
+//@ func (r *resolver) ResolveStructField(s string, f *parser.Field) (err error)
+//@   requires wfResolver(r) && wfTypes() && wfThs() && tdRefsOK() && tdRootsNotChildren() && wfCVs() && wfEnumsG() && f != nil && f.Type != nil && ownTd(r, f.Type)
+//@   ensures err == nil && f.Default != nil ==> bound1(r.ast, f.Default)
+//@   ensures forall x *parser.ConstValue :: x != nil && old(allocated(x) && x.Extra != nil && denotes(r.ast, x.Extra)) ==> x.Extra != nil && denotes(r.ast, x.Extra)
+//@   ensures wfTypes()
+//@   modifies parser.Type.Category, parser.Type.IsTypedef, parser.Type.Reference, parser.Include.Used, r.typedefs, parser.ConstValue.Extra
+
+//@ func (r *resolver) ResolveFunction(s string, f *parser.Function) (err error)
+//@   requires wfResolver(r) && wfTypes() && wfThs() && tdRefsOK() && tdRootsNotChildren() && wfCVs() && wfEnumsG() && f != nil && wfArgs(f.Arguments) && wfArgs(f.Throws) && (!f.Void ==> f.FunctionType != nil && ownTd(r, f.FunctionType))
+//@   requires (forall i int :: 0 <= i && i < len(f.Arguments) ==> ownTd(r, f.Arguments[i].Type)) && (forall i int :: 0 <= i && i < len(f.Throws) ==> ownTd(r, f.Throws[i].Type))
+//@   ensures err == nil ==> defaultsBound(r.ast, f.Arguments, len(f.Arguments)) && defaultsBound(r.ast, f.Throws, len(f.Throws))
+//@   ensures wfTypes()
+//@   modifies parser.Type.Category, parser.Type.IsTypedef, parser.Type.Reference, parser.Include.Used, r.typedefs, parser.ConstValue.Extra
+//@   loop 1 invariant err == nil && wfTypes() && wfResolver(r) && tdRefsOK() && defaultsBound(r.ast, f.Arguments, $i)
+//@   loop 2 invariant err == nil && wfTypes() && wfResolver(r) && tdRefsOK() && defaultsBound(r.ast, f.Arguments, len(f.Arguments)) && defaultsBound(r.ast, f.Throws, $i)
